@@ -34,7 +34,7 @@ func GenGrow(prop string, seed uint64, maxN int) *RunSpec {
 	p := &Profile{}
 	cfg := GenCfg(simrt.NewRng(seed, "config"), p)
 	cfg.SkipNameCheck = r.Bool(0.5)
-	g := GrowSpec{N: 64 + r.Intn(maxN-63), RefsPerTxn: 1 + r.Intn(4), NameLen: 8 + r.Intn(24), Kind: r.Pick(RefVal, RefVal, RefPeeled, RefSym), Rewrite: r.Bool(0.3), WithLog: r.Bool(0.2)}
+	g := GrowSpec{N: 64 + r.Intn(maxN-63), RefsPerTxn: 1 + r.Intn(4), NameLen: 8 + r.Intn(24), Kind: r.Pick(RefVal, RefVal, RefPeeled, RefSym, RefDel), Rewrite: r.Bool(0.3), WithLog: r.Bool(0.2)}
 	if r.Bool(0.3) {
 		g.N = 1 << (6 + r.Intn(int(math.Log2(float64(maxN)))-5))
 		if r.Bool(0.5) {
